@@ -5,7 +5,10 @@
     * core/task/manager.go  handleMessage(TaskStatusMessage) / updateTaskStatus /
       updateTaskState / HandleExecutorFailed / HandleAgentFailed, scheduler.go failure():
       a terminal Mesos status of an owned task, the loss of its executor or of its
-      agent ⇒ task state ERROR (TASK_FINISHED ⇒ DONE) and status INACTIVE;
+      agent ⇒ task state ERROR (TASK_FINISHED ⇒ DONE) and status INACTIVE — whatever the
+      REASON of the status update: also when the core was cut off from the master while the
+      task died and learns the terminal state only from the answer to the implicit RECONCILE
+      of its re-subscription (kinds R…, `Kind.viaReconciliation`);
     * core/environment/manager.go handleDeviceEvent(TASK_INTERNAL_ERROR): only while the
       environment reports RUNNING: the task's ROLE is told ERROR (task.state is not
       touched) and a goroutine queues env.TryTransition(STOP_ACTIVITY);
@@ -38,16 +41,36 @@ namespace Failure
 open RoleTree EnvM
 
 /-- How a task fails on its own. EXEC/AGENT: FAILURE event preceded by the agent's /
-    master's terminal status updates for the tasks; EXEC0/AGENT0: the bare FAILURE event. -/
+    master's terminal status updates for the tasks; EXEC0/AGENT0: the bare FAILURE event.
+    R…: the task died while the core was cut off from the master (event stream dropped); the
+    one-shot status update was never delivered and the core learns the terminal state only
+    from the master's answer to the implicit RECONCILE it sends on every (re-)subscription:
+    a TaskStatusMessage with reason REASON_RECONCILIATION about a task that IS in the roster
+    (RAGENT: TASK_LOST reported that way for every task of an agent). -/
 inductive Kind where
   | FAILED | LOST | KILLED | TERROR | FINISHED | EXEC | EXEC0 | AGENT | AGENT0 | INTERNAL
+  | RFAILED | RLOST | RKILLED | RTERROR | RFINISHED | RAGENT
   deriving DecidableEq, Repr, Inhabited
 
-def Kind.all : List Kind := [.FAILED, .LOST, .KILLED, .TERROR, .FINISHED, .EXEC, .EXEC0, .AGENT, .AGENT0, .INTERNAL]
+def Kind.all : List Kind := [.FAILED, .LOST, .KILLED, .TERROR, .FINISHED, .EXEC, .EXEC0, .AGENT, .AGENT0, .INTERNAL,
+  .RFAILED, .RLOST, .RKILLED, .RTERROR, .RFINISHED, .RAGENT]
 
 def Kind.name : Kind → String
   | .FAILED => "FAILED" | .LOST => "LOST" | .KILLED => "KILLED" | .TERROR => "TERROR" | .FINISHED => "FINISHED"
   | .EXEC => "EXEC" | .EXEC0 => "EXEC0" | .AGENT => "AGENT" | .AGENT0 => "AGENT0" | .INTERNAL => "INTERNAL"
+  | .RFAILED => "RFAILED" | .RLOST => "RLOST" | .RKILLED => "RKILLED" | .RTERROR => "RTERROR" | .RFINISHED => "RFINISHED"
+  | .RAGENT => "RAGENT"
+
+/-- Learnt only through the reconciliation answer after a re-subscription. -/
+def Kind.viaReconciliation : Kind → Bool
+  | .RFAILED | .RLOST | .RKILLED | .RTERROR | .RFINISHED | .RAGENT => true
+  | _ => false
+
+/-- The same terminal Mesos state delivered directly (a status update with any other reason). -/
+def Kind.direct : Kind → Kind
+  | .RFAILED => .FAILED | .RLOST => .LOST | .RKILLED => .KILLED | .RTERROR => .TERROR | .RFINISHED => .FINISHED
+  | .RAGENT => .LOST
+  | k => k
 
 def Kind.parse? (s : String) : Option Kind := Kind.all.find? (fun k => k.name == s)
 
@@ -61,17 +84,22 @@ structure Effect where
 
 /-- manager.go: TASK_FINISHED ⇒ "DONE"; TASK_LOST/KILLED/FAILED/ERROR of a locked task,
     executor lost, agent lost ⇒ "ERROR"; all of them status INACTIVE.
+    The switch on the Mesos state in handleMessage(TaskStatusMessage) and — for a task that
+    is in the roster — the call of updateTaskStatus do not look at the update's REASON (only
+    the KILL of tasks that are NOT in the roster does): a terminal state learnt through
+    reconciliation (R…) has the effect of the directly delivered one.
     handleDeviceEvent: TASK_INTERNAL_ERROR does something only if the environment's
     current state is RUNNING. -/
 def effect (k : Kind) (envSt : St) : Effect :=
   match k with
-  | .FINISHED => ⟨some .DONE, some .INACTIVE, false, false⟩
+  | .FINISHED | .RFINISHED => ⟨some .DONE, some .INACTIVE, false, false⟩
   | .INTERNAL => if envSt = .RUNNING then ⟨some .ERROR, none, true, true⟩ else ⟨none, none, false, false⟩
-  | _ => ⟨some .ERROR, some .INACTIVE, false, false⟩
+  | .FAILED | .LOST | .KILLED | .TERROR | .EXEC | .EXEC0 | .AGENT | .AGENT0
+  | .RFAILED | .RLOST | .RKILLED | .RTERROR | .RAGENT => ⟨some .ERROR, some .INACTIVE, false, false⟩
 
 /-- The kinds the code turns into task state ERROR whatever the environment does. -/
 def Kind.hard : Kind → Bool
-  | .FINISHED | .INTERNAL => false
+  | .FINISHED | .RFINISHED | .INTERNAL => false
   | _ => true
 
 /-- Excluded-hypothesis side of the `_partial` theorems: does this kind, arriving while
